@@ -149,10 +149,22 @@ def f_trinormal : Family :=
       let c := crossE a b
       [sqrtE (dotE 3 c c)] }
 
+
+/-- `closestPointOnLine(p, a, b)` (gtx, vec2 and vec3): with `len = |b - a|`, `dir = (b - a)/len`, `t = (p - a)·dir`:
+    `t ≤ 0 ? a : (len ≤ t ? b : a + dir t)` — the projection clamped to the segment; the only divisor is `len` -/
+def clLen (L : Nat) : E := sqrtE (dotE L (fun i => .sub (vv (2 * L) i) (vv L i)) (fun i => .sub (vv (2 * L) i) (vv L i)))
+def clDir (L i : Nat) : E := .div (.sub (vv (2 * L) i) (vv L i)) (clLen L)
+def clT (L : Nat) : E := dotE L (fun i => .sub (vv 0 i) (vv L i)) (clDir L)
+def f_closest : Family :=
+  { name := "closest", kind := .frac, treeMode := true, guard := true, keys := [[2],[3]], nOut := L, spec := fun _ _ => zero,
+    allowed := fun k => [clLen (L k)],
+    specT := fun k j => .branch (.le (clT (L k)) zero) (.leaf (vv (L k) j))
+      (.branch (.le (clLen (L k)) (clT (L k))) (.leaf (vv (2 * L k) j)) (.leaf (.add (vv (L k) j) (.mul (clDir (L k) j) (clT (L k)))))) }
+
 def families : List Family :=
   [f_dot, f_length, f_distance, f_length2, f_distance2, f_normalize, f_normalize_unit, f_faceforward,
    f_reflect, f_reflect_len, f_reflect_inv, f_refract, f_sdot, f_slength, f_sdistance, f_sfaceforward,
    f_sreflect, f_srefract, f_cross, f_cross_orth, f_cross2, f_mixed, f_proj, f_perp, f_perp_orth, f_angle,
-   f_trinormal]
+   f_trinormal, f_closest]
 
 end Glm.Spec.C12
